@@ -139,7 +139,8 @@ def cxOfIdx (st : List Blk) (x : Idx) (p : Blk) : Cx :=
     chain := (List.range (p.number + 1)).map fun n =>
       match (x.hashAt n).bind (findBlk st) with
       | some b => b.unionProposals
-      | none => [] }
+      | none => []
+    parentEpochNumber := p.epoch.number }
 
 /-- the keys `attach_block(b)` writes are absent from the index -/
 def FreshIn (b : Blk) (x : Idx) : Prop :=
